@@ -70,16 +70,17 @@ def closeAppend {F} (o : FOps F) (s : AState F) : Except AErr Bytes :=
     | .error e => .error (.rewrite e)
     | .ok enc => .ok (writeAt store1 0 enc)
 
+def appendAll {F} (o : FOps F) (s : AState F) : List Chunk → Except AErr (AState F)
+  | [] => .ok s
+  | c :: cs => match appendPoints o s c with
+    | .error e => .error e
+    | .ok s' => appendAll o s' cs
+
 def appendSession {F} (o : FOps F) (file : Bytes) (chunks : List Chunk) : Except AErr Bytes :=
   match openAppend o file with
   | .error e => .error e
   | .ok s =>
-    let rec go (s : AState F) : List Chunk → Except AErr (AState F)
-      | [] => .ok s
-      | c :: cs => match appendPoints o s c with
-        | .error e => .error e
-        | .ok s' => go s' cs
-    match go s chunks with
+    match appendAll o s chunks with
     | .error e => .error e
     | .ok s' => closeAppend o s'
 
